@@ -18,7 +18,7 @@
 (*   Quants   set of <<op, n, m, g>> quantifier calls                      *)
 (*   Names    set of capture names used                                    *)
 (***************************************************************************)
-EXTENDS PregexEval, PregexSem, PregexImpl, RunCfg
+EXTENDS PregexEval, PregexSem, ImplInfer, RunCfg
 
 RECURSIVE IvOfSet(_)
 IvOfSet(S) ==
@@ -239,6 +239,7 @@ Expect(o, tg) ==
    \* layer I (drift measurement only): the text and type the library's own design produces for this value
    emit |-> IF o.ok /\ ~HasClass(o.v) THEN Emit(o.v) ELSE <<-1>>,
    ty |-> IF o.ok THEN TypeOf(o.v) ELSE "",
+   inf |-> IF o.ok THEN Infer(Emit(o.v)) ELSE IT("", TRUE),
    semtab |-> IF SemLen > 0 /\ o.ok /\ Calibratable(o.v) THEN SemTab(o.v) ELSE <<>>,
    ref |-> IF o.ok THEN Ref(o.v) ELSE "",
    caps |-> IF o.ok THEN CapList(o.v) ELSE <<>>,
@@ -281,6 +282,10 @@ LookbehindRule ==
   (res.ok /\ cur.v.k = "look" /\ cur.v.dir # "ahead" /\ WKnown(cur.v.x)) => FixedWidth(cur.v.x)
 \* layer I refinement theorem: the grouping table never lets an operator bind to a fragment of an operand
 PrecSafeInv == res.ok => PrecSafe(cur.v)
+\* layer I, text level (ImplInfer): the type the library infers from the emitted text decides wrapping and repeatability
+InferWrapSafe    == res.ok => InferWrapSafeV(cur.v)
+InferWrapAgree   == res.ok => InferWrapAgreeV(cur.v)
+InferRepeatSound == res.ok => InferRepeatSoundV(cur.v)
 \* C05, single step: an empty later operand is neutral (action property)
 EmptyNeutralStep ==
   [][ ("emptyarg" \in res'.tags /\ res'.ok) =>
